@@ -325,7 +325,7 @@ impl<'a> PGen<'a> {
                     oneof_done.push(g);
                     self.field_value(e, fl.tag, &fl.kind, depth);
                 }
-                PL::Repeated | PL::RepeatedUnpacked => {
+                PL::Repeated | PL::RepeatedUnpacked | PL::Packed => {
                     let n = (self.r.below(self.k.max_rep as u64 + 1) as usize).min(self.budget + 1);
                     let packable = !matches!(fl.kind, PK::String | PK::Bytes | PK::Msg(_));
                     if packable && self.r.chance(1, 2) {
@@ -448,10 +448,13 @@ pub fn wire_type_of(n: u8) -> Option<WireType> {
     WireType::try_from(n as u64).ok()
 }
 
-pub const GEN_MSGS: [&str; 9] = ["AllScalars", "Small", "Maps", "Choice", "Node", "Peer", "Envelope", "Holder", "GroupMsg"];
+pub const GEN_MSGS: [&str; 13] = ["AllScalars", "Small", "Maps", "Choice", "Node", "Peer", "Envelope", "Holder", "GroupMsg", "P2Small", "P2Req", "P2Opt", "P2Rec"];
+/// generated message types a unit draws its base message from (Envelope twice: it reaches most of the others)
+pub const GEN_PICK: [&str; 13] = ["AllScalars", "Small", "Maps", "Choice", "Node", "Peer", "Envelope", "Envelope", "Holder", "P2Req", "P2Opt", "P2Rec", "P2Opt"];
 
 pub fn decode_gen<B: Buf>(name: &str, buf: B, length_delimited: bool) -> Result<(), DecodeError> {
     use crate::pgen::pcorpus_gen::pcorpus as g;
+    use crate::pgen2::pcorpus2_gen::pcorpus2 as g2;
     macro_rules! go {
         ($t:ty) => {
             if length_delimited {
@@ -471,6 +474,10 @@ pub fn decode_gen<B: Buf>(name: &str, buf: B, length_delimited: bool) -> Result<
         "Envelope" => go!(g::Envelope),
         "Holder" => go!(g::Holder),
         "GroupMsg" => go!(GroupMsg),
+        "P2Small" => go!(g2::P2Small),
+        "P2Req" => go!(g2::P2Req),
+        "P2Opt" => go!(g2::P2Opt),
+        "P2Rec" => go!(g2::P2Rec),
         _ => Err(DecodeError::new("harness:unknown message")),
     }
 }
